@@ -30,6 +30,8 @@ def obligations(tier):
                     clause="for ANY number of ordered siblings and any cursor: terminates without panic; (false, Some(x)) => x is the first sibling containing the cursor; (true, prev) => no sibling contains it, prev is the last sibling before the cursor (or the first one if the cursor precedes all), None only for an empty list"))
     out.append(dict(engine="verus", unit="completion", function="FindVisitor::visit_one", name="C20/completion/FindVisitor_visit_one", source=COMP + "::FindVisitor::visit_one",
                     clause="selecting one child to descend into never panics, for every sibling list including the empty one (`[]`)"))
+    out.append(dict(engine="verus", unit="completion", function="FindVisitor::visit_pattern::Tuple", name="C20/completion/FindVisitor_visit_pattern_tuple", source=COMP + "::FindVisitor::visit_pattern (arm Pattern::Tuple)",
+                    clause="descending into a tuple pattern never panics, for every element list including the empty one (the unit pattern `()`)"))
     ns = [1, 2, 3] if tier == "quick" else [1, 2, 3, 4]
     for n in ns:
         out.append(k("gluon_completion", COMP, "c20__select__siblings_%d" % n,
